@@ -7,13 +7,14 @@ Section P2.
   Variable mc : machine.
   Variable ev : env.
   Variable c : ctx.
-  Hypothesis NR : no_raise ev.
   Notation id_seen := (fun s : state => s).
 
   Ltac norm := repeat (rewrite ?Nat.add_0_r, ?app_nil_r, ?app_length, ?(items_length ev c), ?Nat.add_assoc, <- ?app_assoc; cbn [length app]).
   Ltac poseq := repeat (reflexivity || (f_equal; try lia)).
+  Ltac nr := (eapply nrf_mono; [eassumption | lia]).
+  Ltac rw := repeat (cbv beta iota zeta; rewrite ?(run_cbs_ok ev c) by nr).
 
-  Lemma change_state_ok t d p s :
+  Lemma change_state_ok t d p s : no_raise_from ev p ->
     t_src t = s -> registered mc s = true -> registered mc d = true ->
     change_state mc ev c t d p s =
       (let ex := items ev c SExit None s (s_exit (sdef_of mc s)) p in
@@ -23,17 +24,16 @@ Section P2.
                  else [] in
        (ex ++ en ++ fi, d, inr tt)).
   Proof.
-    intros Hs Rs Rd. unfold change_state, registered, sdef_of in *. rewrite Hs.
+    intros NR Hs Rs Rd. unfold change_state, registered, sdef_of in *. rewrite Hs.
     destruct (get_state mc s) as [sd|]; [|discriminate].
     destruct (get_state mc d) as [dd|]; [|discriminate].
-    unfold bind. rewrite (run_cbs_ok ev c NR). unfold put. cbn [length app].
-    rewrite (run_cbs_ok ev c NR).
+    unfold bind. rw. unfold put. cbn [length app]. rw.
     destruct (s_final dd).
-    - rewrite (run_cbs_ok ev c NR). norm. reflexivity.
+    - rw. norm. reflexivity.
     - unfold ret. norm. reflexivity.
   Qed.
 
-  Lemma execute_ok t p s :
+  Lemma execute_ok t p s : no_raise_from ev p ->
     t_src t = s -> registered mc s = true -> dst_registered mc t = true ->
     execute mc ev c t p s =
       (let pr := items ev c SPrepare None s (t_prepare t) p in
@@ -43,24 +43,24 @@ Section P2.
          (pr ++ fst ci ++ fst b, snd b, inr true)
        else (pr ++ fst ci, s, inr false)).
   Proof.
-    intros Hs Rs Rd. unfold execute, bind.
-    rewrite (run_cbs_ok ev c NR). rewrite (eval_conds_ok ev c NR).
+    intros NR Hs Rs Rd. unfold execute, bind.
+    rw. rewrite (eval_conds_ok ev c) by nr.
     cbv zeta.
     destruct (cond_items ev c s (t_conds t) (p + length (items ev c SPrepare None s (t_prepare t) p))) as [ci ok] eqn:E.
     cbn [fst snd]. destruct ok; [|unfold ret; norm; reflexivity].
-    rewrite !(run_cbs_ok ev c NR). unfold body.
+    rw. unfold body.
     unfold dst_registered in Rd.
     destruct (t_dst t) as [d|].
-    - rewrite (change_state_ok t d _ s Hs Rs) by (unfold registered; destruct (get_state mc d); congruence).
-      repeat (cbv beta iota zeta; rewrite ?(run_cbs_ok ev c NR)). unfold ret. norm.
+    - rewrite (change_state_ok t d _ s) by (try nr; try assumption; unfold registered; destruct (get_state mc d); congruence).
+      rw. unfold ret. norm.
       cbn [fst snd]. destruct (s_final (sdef_of mc d)); norm; poseq.
-    - unfold ret. rewrite !(run_cbs_ok ev c NR). norm. cbn [fst snd]. poseq.
+    - unfold ret. rw. norm. cbn [fst snd]. poseq.
   Qed.
 
   Lemma candidates_src ts s t : In t (candidates ts s) -> t_src t = s.
   Proof. unfold candidates. rewrite filter_In. intros [_ H]. now apply Nat.eqb_eq. Qed.
 
-  Lemma try_transitions_ok cands p s :
+  Lemma try_transitions_ok cands p s : no_raise_from ev p ->
     (forall t, In t cands -> t_src t = s /\ dst_registered mc t = true) ->
     registered mc s = true ->
     try_transitions mc ev c cands p s =
@@ -71,15 +71,15 @@ Section P2.
                    (fst sc ++ fst b, snd b, inr true)
        end).
   Proof.
-    intros Hc Rs. revert p. induction cands as [|t r IH]; intros p.
+    intros NR Hc Rs. revert p NR. induction cands as [|t r IH]; intros p NR.
     - reflexivity.
     - cbn [try_transitions scan]. unfold bind.
       destruct (Hc t (or_introl eq_refl)) as [Hs Hd].
-      rewrite (execute_ok t p s Hs Rs Hd). cbv zeta.
+      rewrite (execute_ok t p s NR Hs Rs Hd). cbv zeta.
       destruct (cond_items ev c s (t_conds t) (p + length (items ev c SPrepare None s (t_prepare t) p))) as [ci ok] eqn:E.
       cbn [fst snd]. destruct ok.
       + unfold ret. cbn [fst snd]. norm. poseq.
-      + rewrite IH by (intros t' Ht'; apply Hc; now right).
+      + rewrite IH by (try nr; intros t' Ht'; apply Hc; now right).
         cbv zeta. norm.
         destruct (scan ev c s r (p + length (t_prepare t) + length ci)) as [rest ch] eqn:E2.
  cbn [fst snd]. destruct ch as [t'|]; norm; poseq.
@@ -94,41 +94,50 @@ Section P2.
     unfold candidates in Ht. now apply filter_In in Ht.
   Qed.
 
-  Theorem trigger_event_valid ts p cur :
+  Lemma process_ok ts p cur : no_raise_from ev p ->
+    registered mc cur = true -> wf_trans mc ts = true ->
+    process mc ev c ts cur p cur =
+      (let r := spec_body mc ev c ts cur p in (fst (fst r), snd (fst r), inr (snd r))).
+  Proof.
+    intros NR Rc W. unfold process, bind. rw.
+    rewrite try_transitions_ok; [| nr | apply wf_candidates; assumption | assumption].
+    unfold spec_body. cbv zeta.
+    destruct (scan ev c cur (candidates ts cur) (p + length (items ev c SPrepareEvent None cur (m_prepare_event mc) p))) as [sc ch] eqn:ES.
+    cbn [fst snd]. destruct ch as [t|].
+    - destruct (body mc ev c cur t _) as [b s'] eqn:EB. cbn [fst snd]. norm.
+      destruct (body mc ev c cur t (p + length (m_prepare_event mc) + length sc)) as [b2 s2] eqn:EB2.
+      cbn [fst snd]. poseq.
+    - cbn [fst snd]. norm. poseq.
+  Qed.
+
+  Theorem trigger_event_valid ts p cur : no_raise_from ev p ->
     registered mc cur = true -> wf_trans mc ts = true -> candidates ts cur <> [] ->
     trigger_event mc ev c ts p cur =
       (let r := spec_step mc ev c ts cur p in (fst (fst r), snd (fst r), inr (snd r))).
   Proof.
-    intros Rc W Hne. unfold trigger_event, bind, get. cbn [length app]. rewrite Nat.add_0_r.
-    unfold registered in Rc. destruct (get_state mc cur) as [sd|] eqn:G; [|discriminate].
+    intros NR Rc W Hne. unfold trigger_event, bind, get. cbn [length app]. rewrite Nat.add_0_r.
+    pose proof Rc as Rc'. unfold registered in Rc'. destruct (get_state mc cur) as [sd|] eqn:G; [|discriminate].
     unfold try_except_finally, checked_process.
     destruct (candidates ts cur) as [|t0 r0] eqn:EC; [congruence|]. clear Hne EC t0 r0.
-    unfold process, bind. rewrite (run_cbs_ok ev c NR).
-    rewrite try_transitions_ok; [| apply wf_candidates; assumption | unfold registered; now rewrite G].
-    unfold spec_step. cbv zeta.
-    destruct (scan ev c cur (candidates ts cur) (p + length (items ev c SPrepareEvent None cur (m_prepare_event mc) p))) as [sc ch] eqn:ES.
-    cbn [fst snd]. destruct ch as [t|].
-    - destruct (body mc ev c cur t _) as [b s'] eqn:EB. cbn [fst snd].
-      rewrite (run_cbs_ok ev c NR). norm.
-      destruct (body mc ev c cur t (p + length (m_prepare_event mc) + length sc)) as [b2 s2] eqn:EB2.
-      cbn [fst snd]. norm. poseq.
-    - rewrite (run_cbs_ok ev c NR). cbn [fst snd]. norm. poseq.
+    rewrite (process_ok ts p cur NR Rc W). cbv zeta. unfold spec_step.
+    destruct (spec_body mc ev c ts cur p) as [[b st'] res]. cbn [fst snd].
+    rw. reflexivity.
   Qed.
 
-  Theorem trigger_event_invalid ts p cur :
+  Theorem trigger_event_invalid ts p cur : no_raise_from ev p ->
     registered mc cur = true -> candidates ts cur = [] ->
     trigger_event mc ev c ts p cur =
       (let r := spec_invalid mc ev c cur p in (fst (fst r), snd (fst r), of_outcome (snd r))).
   Proof.
-    intros Rc HE. unfold trigger_event, bind, get. cbn [length app]. rewrite Nat.add_0_r.
+    intros NR Rc HE. unfold trigger_event, bind, get. cbn [length app]. rewrite Nat.add_0_r.
     unfold registered in Rc. unfold spec_invalid, sdef_of.
     destruct (get_state mc cur) as [sd|] eqn:G; [|discriminate].
     unfold try_except_finally, checked_process. rewrite HE.
     destruct (ignores mc sd).
-    - unfold ret. rewrite (run_cbs_ok ev c NR). cbn [fst snd of_outcome]. norm. reflexivity.
+    - unfold ret. rw. cbn [fst snd of_outcome]. norm. reflexivity.
     - unfold raise. destruct (m_on_exception mc) as [|h hs] eqn:EH.
-      + rewrite (run_cbs_ok ev c NR). cbn [fst snd of_outcome]. norm. reflexivity.
-      + unfold bind. rewrite (run_cbs_ok ev c NR). unfold ret. rewrite (run_cbs_ok ev c NR).
+      + rw. cbn [fst snd of_outcome]. norm. reflexivity.
+      + unfold bind. rw. unfold ret. rw.
         cbn [fst snd of_outcome]. norm. poseq.
   Qed.
 
